@@ -123,6 +123,14 @@ func record(net nk.Net, sc scen) (*golden, error) {
 		g.bests = append(g.bests, n.Best().ID())
 	}
 	g.journal = db.VerifJournalStop()
+	// the reference continues exactly like the crashed runs do after recovery: the same
+	// blocks are fed again, twice (a second round connects blocks whose parents arrived
+	// later in the order and orphans that were dropped because their slot was taken)
+	for r := 0; r < 2; r++ {
+		for _, i := range sc.Order {
+			_ = n.Deliver(t.Blocks[i].Block)
+		}
+	}
 	g.final = n.Best().ID()
 	d, err := n.DumpState(n.CS.SDB().GetRoot())
 	if err != nil {
